@@ -18,3 +18,5 @@ open Bec2Verif.C18
 #print axioms trep23
 #print axioms ecdsa23_end_to_end
 #print axioms ecdsa_p256_end_to_end
+#print axioms order_certified_names
+#print axioms ecdsa_on_certified_curves
